@@ -8,6 +8,7 @@ import (
 	"fmt"
 	"io"
 	"net/http"
+	"sync"
 	"time"
 
 	"verif.local/sim/kernel"
@@ -67,6 +68,7 @@ type SimTransport struct {
 	Exchanges []*Exchange
 	InFlight  int
 	Now       func() time.Duration
+	mu        sync.Mutex
 }
 
 func (s *SimTransport) now() time.Duration {
@@ -82,12 +84,19 @@ type pullRes struct {
 }
 
 func (s *SimTransport) RoundTrip(req *http.Request) (*http.Response, error) {
+	// several callers may enter at once: arrival order is not deterministic, so
+	// the exchange is named after the caller's own id header when there is one
+	s.mu.Lock()
 	n := len(s.Exchanges)
 	name := fmt.Sprintf("%s#%d", s.Name, n)
+	if id := req.Header.Get("X-Up"); id != "" {
+		name = fmt.Sprintf("%s#%s", s.Name, id)
+	}
 	plan := s.PlanFor(n, req)
 	ex := &Exchange{Method: req.Method, URL: req.URL.String(), Header: req.Header.Clone(), Plan: plan, EnterAt: s.now()}
 	s.Exchanges = append(s.Exchanges, ex)
 	s.InFlight++
+	s.mu.Unlock()
 	ctx := req.Context()
 	ex.Deadline, ex.HasDeadline = ctx.Deadline()
 	closeBody := func() {
@@ -101,7 +110,9 @@ func (s *SimTransport) RoundTrip(req *http.Request) (*http.Response, error) {
 		ex.Err = err
 		ex.CtxErrAtRet = ctx.Err()
 		ex.ReturnAt = s.now()
+		s.mu.Lock()
 		s.InFlight--
+		s.mu.Unlock()
 		return nil, err
 	}
 	op := s.Env.Begin(name, "1-begin", ctx, nil)
@@ -226,7 +237,9 @@ func (s *SimTransport) RoundTrip(req *http.Request) (*http.Response, error) {
 	op.End("%d len=%d", plan.Status, len(plan.Body))
 	ex.ReturnAt = s.now()
 	ex.CtxErrAtRet = ctx.Err()
+	s.mu.Lock()
 	s.InFlight--
+	s.mu.Unlock()
 	return resp, nil
 }
 
